@@ -235,6 +235,26 @@ pub fn run(ctx: &mut Ctx) {
             ctx.check("key:size-probe:object", &var(k), &obj);
         }
     }
+    // long keys and long path segments (small-string / hashing thresholds), with escapes and non-ASCII
+    for n in al::size_classes(thorough) {
+        if !ctx.mine() {
+            continue;
+        }
+        for unit in ["k", "é", "a\\.b", "7"] {
+            let seg: String = unit.repeat(n);
+            let raw = match crate::refmodel::split_path(&seg) {
+                Some(v) if v.len() == 1 => v[0].clone(),
+                _ => continue,
+            };
+            let almost: String = { let mut c: Vec<char> = raw.chars().collect(); let l = c.len(); c[l - 1] = 'X'; c.into_iter().collect() };
+            let data = json!({ raw.clone(): {"in": [10, 20]}, almost.clone(): "almost", "short": { raw.clone(): "nested" } });
+            for pth in [seg.clone(), format!("{}.in.1", seg), format!("short.{}", seg), format!("{}.in.-1", seg), format!("{}X", seg), format!("short.{}.x", seg)] {
+                ctx.edge();
+                ctx.check("path:long-key", &var(json!(pth)), &data);
+                ctx.check("path:long-key:default", &var(json!([pth, "dflt"])), &data);
+            }
+        }
+    }
     // characters that other path syntaxes treat as separators or escapes (JSON pointer, JSONPath,
     // jq, URL encoding ...) are ordinary key characters here: flat member vs nested look-alike
     for c in ["/", "~", "~0", "~1", "$", "[", "]", "[0]", "*", "#", "%", "%2E", ":", "@", "'", "\"", " ", "|", ",", ";", "=", "&", "?", "!", "^", "(", ")", "{", "}", "<", ">", "+", "-", "_", "\\.", "\\\\"] {
